@@ -19,6 +19,10 @@ def run(ctx):
     for c in cases:
         c["id"] = "sp" + c["id"]
     _notes._judge(ctx, cases, "C05", "NoteTrack.tla star-power scope")
+    # MC + REPLAY: TrackBuild.tla - tempo events, phrases and held notes at once (three cursors); every terminal state replayed
+    tb = _notes.mc_trackbuild(ctx)
+    cases = _notes.cases_from_trackbuild(ctx, tb, "C05", r, limit=ctx.pick(8000, 60000))
+    _notes.judge_trackbuild(ctx, cases, "C05")
     # TRACE: seeded long tracks with many phrases
     cases = []
     import nt
